@@ -34,6 +34,9 @@ def run(ctx: Ctx):
     arg_positions(ctx)
     cubeset(ctx)
     _index_space(ctx)
+    from .common import generic_lints
+
+    generic_lints(ctx)
 
 
 def enumeration(ctx: Ctx):
